@@ -114,6 +114,8 @@ func (v V) MarshalJSON() ([]byte, error) {
 		return json.Marshal([2]string{"t", hex.EncodeToString(v.B)})
 	case 'b':
 		return json.Marshal([2]string{"b", hex.EncodeToString(v.B)})
+	case 's':
+		return json.Marshal([2]string{"s", hex.EncodeToString(v.B)})
 	}
 	return nil, fmt.Errorf("bad val kind %q", v.T)
 }
@@ -140,7 +142,7 @@ func (v *V) UnmarshalJSON(b []byte) error {
 			return err
 		}
 		*v = RealBits(n)
-	case "t", "b":
+	case "t", "b", "s":
 		bs, err := hex.DecodeString(a[1])
 		if err != nil {
 			return err
@@ -181,4 +183,13 @@ func RowsEqual(a, b []Row) bool {
 		}
 	}
 	return true
+}
+
+// AsStr marks a text value to be bound as a Python str parameter (valid UTF-8
+// without NUL only) so that plain `?` placeholders give TEXT.
+func (v V) AsStr() V {
+	if v.T == 't' {
+		v.T = 's'
+	}
+	return v
 }
